@@ -286,7 +286,11 @@ func (it *TxnIterator) materializeEntry(entry *kv.Entry, cf kv.ColumnFamily, use
 			it.item.valueBuf = it.entry.Value
 		}
 	} else {
-		it.entry.Value = append(it.entry.Value[:0], entry.Value...)
+		// Copy into the iterator-owned buffer. it.entry.Value may still alias the
+		// engine's memory (key-only mode keeps encoded value pointers in place),
+		// so it must never be used as an append destination.
+		it.valueBuf = append(it.valueBuf[:0], entry.Value...)
+		it.entry.Value = it.valueBuf
 		it.item.valueBuf = it.entry.Value
 	}
 	if isDeletedOrExpired(it.entry.Meta, it.entry.ExpiresAt) {
